@@ -63,11 +63,11 @@ structure Cfg where
   deriving DecidableEq, Repr
 
 def Cfg.pinned : Cfg := ⟨false, false, false, false, false, false, none, false⟩
-def Cfg.patched : Cfg := ⟨true, true, true, true, true, true, none, false⟩
+def Cfg.patched : Cfg := ⟨true, true, true, true, true, true, none, true⟩
 
 /-- every configuration that has the four fixes the *belief* invariant depends on (F02, F03, F78,
 F79); the clone flag fix (F17), the bulk notifications and the ambient `allow_partial` scope are
-free, and so is the slice fix (F225). `Cfg.patched = Cfg.fixedWith true true none false`. -/
+free, and so is the slice fix (F225). `Cfg.patched = Cfg.fixedWith true true none true`. -/
 def Cfg.fixedWith (listCloneSealed notifyBulk : Bool) (scope : Option Bool) (sliceAtTarget : Bool) : Cfg :=
   ⟨true, true, listCloneSealed, true, true, notifyBulk, scope, sliceAtTarget⟩
 
